@@ -9,7 +9,7 @@
     the check (binary vs library vs this model), not by a theorem; thread-count
     independence of the deterministic method is C06. *)
 From Coq Require Import Reals List Bool NArith.
-From Cfr.theories Require Import Num RInst Tree Valid Strat Eval Solve Cli CliProofs PresentationProofs CliMoreProofs.
+From Cfr.theories Require Import Num RInst Tree GameWF Valid Strat Eval Solve SolveValidProofs Cli CliProofs PresentationProofs CliMoreProofs SolveApi CliRun.
 Import ListNotations.
 Open Scope R_scope.
 
@@ -76,6 +76,61 @@ Theorem C16_distinct_chance_labels_immaterial :
   forall (NN : Num) (t : @gnode NN), NoDup (clabels t) -> from_root (cerase t) = from_root t.
 Proof. intros NN. exact (@cerase_from_root NN). Qed.
 
+(** 5. the options ([theories/CliRun.v]: [main.rs] after [clap]): the option table, and the
+       printed object is the clip decision applied to the library's solution for the mapped
+       parameters — independent of the parallelism option, the machine, the workers' schedule
+       (for the sampled methods: under a fixed oracle); a rejected input prints nothing *)
+Theorem C16_option_table :
+  discount_params DVanilla = @p_vanilla RNum /\ discount_params DLcfr = @p_lcfr RNum /\
+  discount_params DCfrPlus = @p_cfr_plus RNum /\ discount_params DDcfr = @p_dcfr RNum /\
+  discount_params DDcfrPrune = @p_dcfr_prune RNum /\
+  discount_params (arg_discount default_args) = @p_default RNum /\
+  effective_iters 0 = (2 ^ 64 - 1)%N /\ (forall n, n <> 0%N -> effective_iters n = n).
+Proof.
+  destruct discount_table as (A & B & C & D & E & F). destruct zero_iters_means_unbounded as [G H].
+  repeat split; assumption.
+Qed.
+
+Theorem C16_printed_is_library_result :
+  forall (a : args) (g : @game RNum) (sum : R) draw par s,
+    WFgame g -> schedules_ok s ->
+    solve_api g (arg_method a) draw (discount_params (arg_discount a))
+              (N.to_nat (effective_iters (arg_max_iters a))) (@stop_at RNum (arg_max_regret a))
+              (arg_parallel a) par s <> ApiThreadOverflow ->
+    cli_run a (Loaded (g, sum)) draw par s =
+    Some (@cli_choose RNum g sum (arg_clip a)
+            (fst (fst (@solve_single RNum g (arg_method a) draw (discount_params (arg_discount a))
+                                     (N.to_nat (effective_iters (arg_max_iters a)))
+                                     (@stop_at RNum (arg_max_regret a))))), g).
+Proof. exact cli_run_is_library. Qed.
+
+Theorem C16_parallelism_irrelevant :
+  forall (a a' : args) (g : @game RNum) (sum : R) draw par par' s s',
+    WFgame g -> schedules_ok s -> schedules_ok s' ->
+    arg_clip a' = arg_clip a -> arg_max_regret a' = arg_max_regret a ->
+    arg_max_iters a' = arg_max_iters a -> arg_method a' = arg_method a ->
+    arg_discount a' = arg_discount a ->
+    cli_run a (Loaded (g, sum)) draw par s <> None ->
+    cli_run a' (Loaded (g, sum)) draw par' s' <> None ->
+    cli_run a' (Loaded (g, sum)) draw par' s' = cli_run a (Loaded (g, sum)) draw par s.
+Proof. exact cli_run_parallel_irrelevant. Qed.
+
+Theorem C16_run_prints_valid_profile :
+  forall (a : args) (g : @game RNum) (sum : R) draw par s out g',
+    WFgame g -> arities_pos g -> schedules_ok s ->
+    cli_run a (Loaded (g, sum)) draw par s = Some (out, g') ->
+    g' = g /\ Valid g (o_prof out).
+Proof. exact cli_run_valid. Qed.
+
+Theorem C16_rejected_prints_nothing :
+  forall (a : args) r draw par s, cli_run a (Rejected r) draw par s = None.
+Proof. exact cli_run_rejected. Qed.
+
+Print Assumptions C16_option_table.
+Print Assumptions C16_printed_is_library_result.
+Print Assumptions C16_parallelism_irrelevant.
+Print Assumptions C16_run_prints_valid_profile.
+Print Assumptions C16_rejected_prints_nothing.
 Print Assumptions C16_json_gambit_same_solution.
 Print Assumptions C16_distinct_chance_labels_immaterial.
 Print Assumptions C16_pruned_iff_strictly_lower.
